@@ -27,7 +27,7 @@ ASSUMPTIONS = [
     'bounds and values are positive (log modes are defined for them)',
 ]
 REQUIRED = {'observation:derived-only': 0.1, 'recompile-after-change': 0.3, 'prior-mode-mismatch': 0.08, 'derived-toggled': 0.2, 'has-update': 0.3,
-            'unknown-name': 0.1}
+            'unknown-name': 0.1, 'bounds-nudged-after-compile': 0.04, 'tiny-bounds-after-compile': 0.03}
 # coverage-guided extra (thorough tier): pure-Python taurex modules on this property's path, instrumented by atheris
 FUZZ = {'include': ['taurex.optimizer.optimizer', 'taurex.core', 'taurex.data.fittable'], 'runs': 12000, 'workers': 4}
 
@@ -48,7 +48,11 @@ def _op(draw, kind=None):
     if op == 'set_mode':
         d['mode'] = draw(st.sampled_from(['log', 'linear', 'LOG', 'Linear']))
     elif op == 'set_boundary':
-        d['b'] = sorted([10.0 ** draw(st.floats(-6, 3)), 10.0 ** draw(st.floats(-6, 3))])
+        lo = draw(st.sampled_from([-6, -6, -13]))        # -13: trace-abundance sized bounds
+        d['b'] = sorted([10.0 ** draw(st.floats(lo, 3 if lo == -6 else -8)), 10.0 ** draw(st.floats(lo, 3 if lo == -6 else -8))])
+        if draw(S.ints(0, 3)) == 0:
+            # move the bounds in force by a small relative amount instead (a refinement of an earlier choice)
+            d['nudge'] = [draw(st.sampled_from([-1.0, 1.0])) * 10.0 ** draw(st.floats(-9, -4)) for _ in range(2)]
     elif op == 'set_factor_boundary':
         d['f'] = [draw(st.floats(0.05, 0.95)), draw(st.floats(1.05, 20.0))]
     elif op == 'set_prior':
@@ -162,7 +166,7 @@ def implied(settings, order, current):
 
 def prior_sig(pr):
     b = pr.boundaries()
-    return (type(pr).__name__, round(float(b[0]), 12), round(float(b[1]), 12))
+    return (type(pr).__name__, float('%.13g' % float(b[0])), float('%.13g' % float(b[1])))
 
 
 def check(case):
@@ -216,8 +220,16 @@ def check(case):
                 settings[p]['mode'] = op['mode'].lower()
                 changed_since = True
             elif name == 'set_boundary':
-                cut(out, 'set_boundary', opt.set_boundary, p, list(op['b']))
-                settings[p]['bounds'] = tuple(op['b'])
+                b = list(op['b'])
+                if op.get('nudge'):
+                    old = settings[p]['bounds']
+                    b = [float(old[0]) * (1.0 + op['nudge'][0]), float(old[1]) * (1.0 + op['nudge'][1])]
+                    if compiled:
+                        out.cls('bounds-nudged-after-compile')
+                elif max(b) < 1e-7 and compiled:
+                    out.cls('tiny-bounds-after-compile')
+                cut(out, 'set_boundary', opt.set_boundary, p, list(b))
+                settings[p]['bounds'] = tuple(b)
                 changed_since = True
             elif name == 'set_factor_boundary':
                 v = current()[p]
